@@ -128,7 +128,7 @@ end CV.Props.C05
 namespace CV.Props.C05
 
 /-- (facts, regenerated from the source on every run) **The source text the model transcribes is the text of the
-    current source**: the bodies (comments and layout removed) of the 9 functions the model behind C05 was written from and
+    current source**: the bodies (comments and layout removed) of the 11 functions the model behind C05 was written from and
     validated against.  Any edit of one of them breaks this theorem at build time; the check then searches with the
     property's own oracles for a failing input, and reports `no-failing-input-found` if it finds none: the model then
     has to be re-validated against the new text (and this block regenerated). -/
@@ -136,6 +136,8 @@ theorem source_decision_logic : CV.Facts.logicC05 = [
   "badger..Open: { return OpenWithOptions(badger.DefaultOptions(dir)) }", 
   "badger..OpenWithOptions: { db, err := badger.Open(opts) if err != nil && !opts.InMemory && !opts.ReadOnly && strings.Contains(err.Error(), \"while opening memtables\") { db, err = badger.Open(opts) } if err != nil { return nil, err } dataStore := &badgerStore{ db: db, chQuit: make(chan struct{}, 1), } dataStore.startGC() return dataStore, nil }", 
   "badger.badgerStore.Close: { store.stopGC() return store.db.Close() }", 
+  "badger.badgerStore.startGC: { store.chWg.Add(1) go func() { defer store.chWg.Done() ticker := time.NewTicker(GCReclaimInterval) defer ticker.Stop() for { select { case <-store.chQuit: return case <-ticker.C: err := store.db.RunValueLogGC(GCDiscardRatio) if err != nil && errors.Is(err, badger.ErrNoRewrite) { log.Printf(\"RunValueLogGC(): %s\\n\", err.Error()) } } } }() }", 
+  "badger.badgerStore.stopGC: { store.chQuit <- struct{}{} store.chWg.Wait() close(store.chQuit) }", 
   "bbolt..Open: { db, err := bbolt.Open(filepath.Join(dir, dbFileName), 0600, nil) if err != nil { return nil, err } dataStore := &boltStore{db: db} err = dataStore.createRootBucketIfNotExists() return dataStore, err }", 
   "bbolt.boltStore.Close: { return store.db.Close() }", 
   "bbolt.boltStore.createRootBucketIfNotExists: { tx, err := store.db.Begin(true) if err != nil { return err } defer tx.Rollback() _, err = tx.CreateBucketIfNotExists([]byte(rootBucket)) if err != nil { return err } return tx.Commit() }", 
